@@ -471,15 +471,16 @@ theorem delIdx?_last {β : Type} (L : List β) (x : β) : delIdx? (L ++ [x]) (-1
   simp [List.eraseIdx_append_of_length_le]
 
 /-- the loop `while ded and ded[-1][0] >= len(items): del ded[-1]` -/
-theorem dead_loop {σ ρ : Type} (H : σ → Heap α Unit) (D : σ → List (Val α Unit)) (N : σ → Int)
+theorem dead_loop {σ ρ φ : Type} (H : σ → Heap α Unit) (D : σ → List (Val α Unit)) (N : σ → Int) (frame : σ → φ)
     (c : σ → Except PyExc Bool) (body : Stmt σ ρ)
     (hc : ∀ t, c t = andE (.ok (!(D t).isEmpty)) (bx (bx (PyRt.index? (D t) (-1)) (fun v => Heap.get? (H t) v 0))
       (fun v7 => bx (asInt? v7) (fun v8 => .ok (decide (v8 ≥ N t))))))
-    (hb : ∀ t L x, D t = L ++ [x] → ∃ t', body t = (.next, t') ∧ D t' = L ∧ H t' = H t ∧ N t' = N t) (n : Nat) :
+    (hb : ∀ t L x, D t = L ++ [x] → ∃ t', body t = (.next, t') ∧ D t' = L ∧ H t' = H t ∧ N t' = N t ∧ frame t' = frame t)
+    (n : Nat) :
     ∀ (fuel : Nat) (addrs : List Nat) (dead : List (Nat × Nat)) (t : σ), D t = addrs.map Val.ref →
       addrs.map (H t).cell = dead.map ivCell → N t = (n : Int) → dead.length < fuel →
       ∃ t' m, whileLoop c body fuel t = (.next, t') ∧ D t' = (addrs.take m).map Val.ref ∧ m ≤ dead.length ∧
-        popDeadFrom dead n = dead.take m ∧ H t' = H t ∧ N t' = N t := by
+        popDeadFrom dead n = dead.take m ∧ H t' = H t ∧ N t' = N t ∧ frame t' = frame t := by
   intro fuel
   induction fuel with
   | zero => intro _ _ _ _ _ _ h; omega
@@ -489,7 +490,7 @@ theorem dead_loop {σ ρ : Type} (H : σ → Heap α Unit) (D : σ → List (Val
     rcases nil_or_snoc addrs with rfl | ⟨A, a, rfl⟩
     · have : dead = [] := by cases dead with | nil => rfl | cons _ _ => simp at hlen
       subst this
-      refine ⟨t, 0, ?_, by simpa using hD, Nat.le_refl _, by simp [popDeadFrom], rfl, rfl⟩
+      refine ⟨t, 0, ?_, by simpa using hD, Nat.le_refl _, by simp [popDeadFrom], rfl, rfl, rfl⟩
       simp [whileLoop, hc, hD, andE]
     · rcases nil_or_snoc dead with rfl | ⟨d', p, rfl⟩
       · simp at hlen
@@ -506,17 +507,283 @@ theorem dead_loop {σ ρ : Type} (H : σ → Heap α Unit) (D : σ → List (Val
           simp only [andE, hne, Bool.not_false, bx_ok, if_true, index?_last, Heap.get?, hca, ivCell, hN, hi0, asInt?]
           simp
         by_cases hge : n ≤ p.1
-        · obtain ⟨t1, hb1, hb2, hb3, hb4⟩ := hb t _ _ hD
-          obtain ⟨t', m, h1, h2, h3, h4, h5, h6⟩ := ih A d' t1 hb2 (by rw [hb3]; exact hc1) (by rw [hb4, hN])
+        · obtain ⟨t1, hb1, hb2, hb3, hb4, hb5⟩ := hb t _ _ hD
+          obtain ⟨t', m, h1, h2, h3, h4, h5, h6, h7⟩ := ih A d' t1 hb2 (by rw [hb3]; exact hc1) (by rw [hb4, hN])
             (by simp at hf; omega)
-          refine ⟨t', m, ?_, ?_, by simp; omega, ?_, h5.trans hb3, h6.trans hb4⟩
+          refine ⟨t', m, ?_, ?_, by simp; omega, ?_, h5.trans hb3, h6.trans hb4, h7.trans hb5⟩
           · simp [whileLoop, hcond, hge, hb1, h1]
           · rw [h2, List.take_append_of_le_length (by simp at hlen; omega)]
           · rw [popDeadFrom_snoc, if_pos hge, h4, List.take_append_of_le_length h3]
-        · refine ⟨t, (d' ++ [p]).length, ?_, ?_, Nat.le_refl _, ?_, rfl, rfl⟩
+        · refine ⟨t, (d' ++ [p]).length, ?_, ?_, Nat.le_refl _, ?_, rfl, rfl, rfl⟩
           · simp [whileLoop, hcond, hge]
           · rw [hD, ← hlen, ← List.map_singleton (f := Val.ref), ← List.map_append, List.take_length]
           · rw [popDeadFrom_snoc, if_neg hge, List.take_length]
+
+/-- a prefix of a represented table is represented (what the loop of `_cull` leaves) -/
+theorem RepDead.take {h : Heap α Unit} {addrs : List Nat} {dead : List (Nat × Nat)} (hnd : addrs.Nodup)
+    (hc : addrs.map h.cell = dead.map ivCell) (m : Nat) :
+    RepDead h ((addrs.take m).map Val.ref) (dead.take m) := by
+  refine ⟨addrs.take m, rfl, hnd.sublist (List.take_sublist _ _), ?_⟩
+  rw [List.map_take, List.map_take, hc]
+
+/-! ### round 3f: what `remove` / `discard` / `pop` need -/
+
+/-- consequences of the class invariant that `_cull`'s tie needs -/
+theorem InvC.idx_le {s : ISet α} (h : InvC s) : s.idx.length ≤ s.items.length := by
+  have h1 := h.perm.length_eq
+  rw [IMap.length_keys] at h1
+  rw [h1]
+  unfold live; exact List.length_filterMap_le _ _
+
+theorem takeWhile_all {β : Type} (p : β → Bool) : ∀ (R : List β), R.takeWhile p = R → ∀ y ∈ R, p y = true
+  | [], _, y, hy => by simp at hy
+  | z :: R, h, y, hy => by
+    by_cases hp : p z = true
+    · simp only [List.takeWhile_cons, hp, if_true, List.cons.injEq, true_and] at h
+      rcases List.mem_cons.1 hy with rfl | hy
+      · exact hp
+      · exact takeWhile_all p R h y hy
+    · simp [List.takeWhile_cons, hp] at h
+
+theorem trailingDead_lt (l : List (Option α)) (x : α) (hx : x ∈ live l) : trailingDead l < l.length := by
+  unfold trailingDead
+  rcases Nat.lt_or_ge (l.reverse.takeWhile isTomb).length l.length with h | h
+  · exact h
+  · exfalso
+    have hp : l.reverse.takeWhile isTomb <+: l.reverse := List.takeWhile_prefix _
+    have he : l.reverse.takeWhile isTomb = l.reverse := hp.eq_of_length_le (by simpa using h)
+    have hall : ∀ y ∈ l.reverse, isTomb y = true := by
+      intro y hy
+      exact takeWhile_all isTomb l.reverse he y hy
+    have := (mem_live l x).1 hx
+    have h2 := hall (some x) (by simpa using this)
+    simp [isTomb] at h2
+
+theorem InvC.trailing {s : ISet α} (h : InvC s) (hne : s.idx ≠ []) : trailingDead s.items < s.items.length := by
+  cases hi : s.idx with
+  | nil => exact absurd hi hne
+  | cons p m =>
+    have hk : p.1 ∈ IMap.keys s.idx := by rw [hi]; simp [IMap.keys]
+    exact trailingDead_lt s.items p.1 (h.perm.mem_iff.1 hk)
+
+theorem addDead_length_le (d : List (Nat × Nat)) (i : Nat) : (addDead d i).length ≤ d.length + 1 := by
+  unfold addDead
+  split
+  · simp_all
+  · simp only
+    split
+    · omega
+    · split
+      · simp
+      · split
+        · simp
+        · rw [List.length_insertIdx]; split <;> omega
+
+theorem pop?_castIdx (m : IMap α) (x : α) (hn : (IMap.keys m).Nodup) :
+    PyRt.Dict.pop? (castIdx m) x = match IMap.lookup m x with
+      | some n => .ok ((n : Int), castIdx (IMap.erase m x))
+      | none => .error PyExc.KeyError := by
+  unfold PyRt.Dict.pop?
+  rw [find_castIdx, erase_castIdx m x hn]
+  cases IMap.lookup m x <;> rfl
+
+theorem setIdx?_tomb (items : List (Option α)) (i : Nat) (hi : i < items.length) :
+    setIdx? (items.map ofItem) (i : Int) Val.sentinel = .ok ((items.map ofItem).set i Val.sentinel) := by
+  unfold setIdx? PyRt.normIdx
+  have h0 : ¬ ((i : Int) < 0) := by omega
+  simp only [h0, if_false, List.length_map]
+  rw [if_pos (by omega)]
+  simp
+
+theorem map_set_tomb (items : List (Option α)) (i : Nat) :
+    (items.set i none).map ofItem = (items.map ofItem).set i Val.sentinel := by simp [List.map_set]
+
+
+/-- the loop `for d_start, d_stop in self.dead_indices: if real_index < d_start: break; real_index += d_stop - d_start`
+    read through the store, whatever its body looks like, as long as one iteration on the cell `[a, b]` either breaks
+    (running value below `a`) or adds `b - a` -/
+theorem cells_real_loop {σ ρ : Type} (H : σ → Heap α Unit) (D : σ → List (Val α Unit)) (K : σ → Int)
+    (keep : Val α Unit → Bool) (bind : Int → Val α Unit → σ → σ) (body : Stmt σ ρ) (hkeep : ∀ v, keep v = true)
+    (hbody : ∀ (t : σ) (a : Nat) (p : Nat × Nat) (iv : Int), (H t).cell a = ivCell p → p.1 ≤ p.2 → 0 ≤ K t →
+      (K t < p.1 → ∃ t', body (bind iv (.ref a) t) = (.brk, t') ∧ K t' = K t ∧ H t' = H t ∧ D t' = D t) ∧
+      (¬ K t < p.1 → ∃ t', body (bind iv (.ref a) t) = (.next, t') ∧ K t' = K t + ((p.2 : Int) - p.1) ∧ H t' = H t ∧
+        D t' = D t)) :
+    ∀ (dead : List (Nat × Nat)) (addrs : List Nat) (pre : List (Val α Unit)) (fuel : Nat) (iv : Int) (t : σ) (r : Nat),
+      D t = pre ++ addrs.map Val.ref → addrs.map (H t).cell = dead.map ivCell → K t = (r : Int) →
+      (∀ p ∈ dead, p.1 ≤ p.2) → dead.length < fuel →
+      ∃ t', forLazy D keep bind body fuel pre.length iv t = (.next, t') ∧ K t' = (realLoop r dead : Int) ∧ H t' = H t ∧
+        D t' = D t := by
+  intro dead
+  induction dead with
+  | nil =>
+    intro addrs pre fuel iv t r hD hc hK _ hf
+    obtain ⟨n, rfl⟩ : ∃ n, fuel = n + 1 := ⟨fuel - 1, by omega⟩
+    have : addrs = [] := by cases addrs with | nil => rfl | cons _ _ => simp at hc
+    subst this
+    refine ⟨t, ?_, by simpa [realLoop] using hK, rfl, rfl⟩
+    simp [forLazy, hD]
+  | cons p ds ih =>
+    intro addrs pre fuel iv t r hD hc hK hord hf
+    obtain ⟨n, rfl⟩ : ∃ n, fuel = n + 1 := ⟨fuel - 1, by omega⟩
+    cases addrs with
+    | nil => simp at hc
+    | cons a as =>
+      simp only [List.map_cons, List.cons.injEq] at hc
+      obtain ⟨hca, hcs⟩ := hc
+      have hget : (D t)[pre.length]? = some (Val.ref a) := by rw [hD]; simp
+      obtain ⟨a0, b0⟩ := p
+      have hb := hbody t a (a0, b0) iv hca (hord _ (by simp)) (by omega)
+      simp only [forLazy, hget, hkeep, if_true, realLoop]
+      by_cases hlt : r < a0
+      · obtain ⟨t', h1, h2, h3, h4⟩ := hb.1 (by simp only; omega)
+        rw [h1, if_pos hlt]
+        exact ⟨t', rfl, by rw [h2, hK], h3, h4⟩
+      · obtain ⟨t', h1, h2, h3, h4⟩ := hb.2 (by simp only; omega)
+        rw [h1, if_neg hlt]
+        have hab : a0 ≤ b0 := hord (a0, b0) (by simp)
+        obtain ⟨t2, g1, g2, g3, g4⟩ := ih as (pre ++ [Val.ref a]) n (iv + 1) t' (r + (b0 - a0))
+          (by rw [h4, hD]; simp) (by rw [h3]; exact hcs) (by rw [h2, hK]; simp only; omega)
+          (fun q hq => hord q (List.mem_cons_of_mem _ hq)) (by simp at hf; omega)
+        refine ⟨t2, ?_, g2, g3.trans h3, g4.trans h4⟩
+        simpa using g1
+
+
+/-- the state before `_cull` in `pop()` of the last slot keeps the invariant (the argument of `popLast_spec`) -/
+theorem invC_dropLast (s : ISet α) (h : InvC s) (x : α) (hl : s.items.getLast? = some (some x)) :
+    InvC (⟨s.items.dropLast, IMap.erase s.idx x, s.dead⟩ : ISet α) := by
+  have hlive := live_dropLast_some s.items x hl
+  have hxnot : x ∉ live s.items.dropLast := by
+    intro hm
+    have := h.nodup
+    rw [hlive, List.nodup_append] at this
+    exact this.2.2 x hm x (by simp) rfl
+  have hne' : s.items ≠ [] := by intro e; rw [e] at hl; simp at hl
+  have hlen : 0 < s.items.length := by cases hi : s.items with | nil => exact absurd hi hne' | cons a b => simp
+  have hslot : s.items[s.items.length - 1]? = some (some x) := by
+    rw [← List.getLast?_eq_getElem?]; exact hl
+  have hget : ∀ j, j < s.items.length - 1 → s.items.dropLast[j]? = s.items[j]? := by
+    intro j hj
+    rw [List.dropLast_eq_take, List.getElem?_take]; simp [hj]
+  refine { nodup := ?_, perm := ?_, look := ?_, chain := ?_, tombs := ?_ }
+  · show (live s.items.dropLast).Nodup
+    have := h.nodup
+    rw [hlive, List.nodup_append] at this
+    exact this.1
+  · show (IMap.keys (IMap.erase s.idx x)).Perm (live s.items.dropLast)
+    rw [IMap.keys_erase]
+    have := h.perm.erase x
+    rw [hlive, List.erase_append_right _ hxnot] at this
+    simpa using this
+  · intro y j hly
+    show s.items.dropLast[j]? = some (some y)
+    have hyx : x ≠ y := by
+      intro e; subst e
+      rw [IMap.lookup_erase_self _ _ h.keys_nodup] at hly; cases hly
+    rw [IMap.lookup_erase_ne _ _ _ hyx] at hly
+    have hj := h.look y j hly
+    have hjl := getElem?_lt hj
+    have : j ≠ s.items.length - 1 := by
+      intro e; subst e; rw [hslot] at hj; simp at hj; exact hyx hj
+    rw [hget j (by omega)]; exact hj
+  · show Chain 0 s.dead s.items.dropLast.length
+    rw [List.length_dropLast]
+    apply chain_tighten_hi s.dead 0 _ _ h.chain (Nat.zero_le _)
+    intro p hp
+    have hcp := chain_mem s.dead 0 _ p h.chain hp
+    rcases Nat.lt_or_ge (s.items.length - 1) p.2 with hgt | hle
+    · exfalso
+      have := (h.tombs (s.items.length - 1) (Nat.zero_le _) (by omega)).2 ⟨p, hp, by omega, by omega⟩
+      rw [hslot] at this; simp at this
+    · exact hle
+  · intro j _ hj
+    show s.items.dropLast[j]? = some none ↔ DeadAt s.dead j
+    have hj : j < s.items.dropLast.length := hj
+    rw [List.length_dropLast] at hj
+    rw [hget j hj]; exact h.tombs j (Nat.zero_le _) (by omega)
+
+theorem popLast?_items (items : List (Option α)) (o : Option α) (hl : items.getLast? = some o) :
+    PyRt.popLast? (items.map ofItem) = .ok (ofItem o, (items.map ofItem).dropLast) := by
+  unfold PyRt.popLast?
+  rw [List.getLast?_map, hl]; rfl
+
+theorem del?_castIdx (m : IMap α) (x : α) (hn : (IMap.keys m).Nodup) (hx : (IMap.lookup m x).isSome) :
+    PyRt.Dict.del? (castIdx m) x = .ok (castIdx (IMap.erase m x)) := by
+  unfold PyRt.Dict.del?
+  rw [contains_castIdx, hx, erase_castIdx m x hn]; rfl
+
+theorem index?_items (items : List (Option α)) (r : Nat) (o : Option α) (h : items[r]? = some o) :
+    PyRt.index? (items.map ofItem) (r : Int) = .ok (ofItem o) := by
+  have hr := getElem?_lt h
+  unfold PyRt.index? PyRt.normIdx
+  have h0 : ¬ ((r : Int) < 0) := by omega
+  simp [h0, h]
+
+
+/-- the loop `for d_start, d_stop in self.dead_indices: if index < d_start: break; apparent_index -= d_stop - d_start`
+    read through the store (`I` = the observed index, kept; `K` = the running value) -/
+theorem cells_app_loop {σ ρ : Type} (H : σ → Heap α Unit) (D : σ → List (Val α Unit)) (K I : σ → Int)
+    (keep : Val α Unit → Bool) (bind : Int → Val α Unit → σ → σ) (body : Stmt σ ρ) (hkeep : ∀ v, keep v = true) (r : Nat)
+    (hbody : ∀ (t : σ) (a : Nat) (p : Nat × Nat) (iv : Int), (H t).cell a = ivCell p → p.1 ≤ p.2 → I t = (r : Int) →
+      ((r : Int) < p.1 → ∃ t', body (bind iv (.ref a) t) = (.brk, t') ∧ K t' = K t ∧ I t' = I t ∧ H t' = H t ∧ D t' = D t) ∧
+      (¬ (r : Int) < p.1 → ∃ t', body (bind iv (.ref a) t) = (.next, t') ∧ K t' = K t - ((p.2 : Int) - p.1) ∧ I t' = I t ∧
+        H t' = H t ∧ D t' = D t)) :
+    ∀ (dead : List (Nat × Nat)) (addrs : List Nat) (pre : List (Val α Unit)) (fuel : Nat) (iv : Int) (t : σ)
+      (lo hi app : Nat),
+      D t = pre ++ addrs.map Val.ref → addrs.map (H t).cell = dead.map ivCell → K t = (app : Int) → I t = (r : Int) →
+      Chain lo dead hi → (∀ p ∈ dead, ¬ (p.1 ≤ r ∧ r < p.2)) → r ≤ app + lo → app ≤ r → dead.length < fuel →
+      ∃ t', forLazy D keep bind body fuel pre.length iv t = (.next, t') ∧ K t' = (appLoop r app dead : Int) := by
+  intro dead
+  induction dead with
+  | nil =>
+    intro addrs pre fuel iv t lo hi app hD hc hK _ _ _ _ _ hf
+    obtain ⟨n, rfl⟩ : ∃ n, fuel = n + 1 := ⟨fuel - 1, by omega⟩
+    have : addrs = [] := by cases addrs with | nil => rfl | cons _ _ => simp at hc
+    subst this
+    refine ⟨t, ?_, by simpa [appLoop] using hK⟩
+    simp [forLazy, hD]
+  | cons p ds ih =>
+    intro addrs pre fuel iv t lo hi app hD hc hK hI hch hl hlo hle hf
+    obtain ⟨n, rfl⟩ : ∃ n, fuel = n + 1 := ⟨fuel - 1, by omega⟩
+    cases addrs with
+    | nil => simp at hc
+    | cons a as =>
+      simp only [List.map_cons, List.cons.injEq] at hc
+      obtain ⟨hca, hcs⟩ := hc
+      have hget : (D t)[pre.length]? = some (Val.ref a) := by rw [hD]; simp
+      obtain ⟨a0, b0⟩ := p
+      simp only [Chain] at hch
+      have hnot := hl (a0, b0) (by simp)
+      simp only at hnot
+      have hb := hbody t a (a0, b0) iv hca (by simp only; omega) hI
+      simp only [forLazy, hget, hkeep, if_true, appLoop]
+      by_cases hlt : r < a0
+      · obtain ⟨t', h1, h2, _, _, _⟩ := hb.1 (by simp only; omega)
+        rw [h1, if_pos hlt]
+        exact ⟨t', rfl, by rw [h2, hK]⟩
+      · obtain ⟨t', h1, h2, h3, h4, h5⟩ := hb.2 (by simp only; omega)
+        rw [h1, if_neg hlt]
+        have hb0 : b0 ≤ r := by omega
+        obtain ⟨t2, g1, g2⟩ := ih as (pre ++ [Val.ref a]) n (iv + 1) t' b0 hi (app - (b0 - a0))
+          (by rw [h5, hD]; simp) (by rw [h4]; exact hcs) (by rw [h2, hK]; simp only; omega) (h3.trans hI) hch.2.2
+          (fun q hq => hl q (List.mem_cons_of_mem _ hq)) (by omega) (by omega) (by simp at hf; omega)
+        refine ⟨t2, ?_, g2⟩
+        simpa using g1
+
+theorem get?_castIdx (m : IMap α) (x : α) :
+    PyRt.Dict.get? (castIdx m) x = match IMap.lookup m x with
+      | some n => .ok (n : Int)
+      | none => .error PyExc.KeyError := by
+  unfold PyRt.Dict.get?
+  rw [find_castIdx]
+  cases IMap.lookup m x <;> rfl
+
+
+theorem index?_items_none (items : List (Option α)) (r : Nat) (h : items[r]? = none) :
+    PyRt.index? (items.map ofItem) (r : Int) = .error PyExc.IndexError := by
+  unfold PyRt.index? PyRt.normIdx
+  have h0 : ¬ ((r : Int) < 0) := by omega
+  simp [h0, h]
+
 
 end RepSec
 
